@@ -193,3 +193,23 @@ _TECH6 = {
 for _k, _v in _TECH6.items():
     if _v not in CLAIMS[_k]['technique']:
         CLAIMS[_k]['technique'] += _v
+
+CLAIMS['C02'] = dict(
+    technique='static analysis: per-path linear-form accounting of running offsets/cursors on MIR (advance equals the length consumed; read-before-advance), def-use provenance of hash inputs and header fields, whole-pass loop recognition',
+    text=('Decides two structural necessary conditions of "what is uploaded is self-consistent": (R02a) in RawXorbData::from_chunks one whole pass over the chunk slice pushes, per chunk, the record '
+          '(c.hash, c.data.len(), offset) and the data c.data, the offset being a running sum advanced once per chunk by that data length and read before the advance; the xorb hash is cas_node_hash over '
+          '(c.hash, c.data.len()) mapped over the same slice with no selecting or reordering adaptor; the header records that hash, the slice length and the final offset — so a xorb is named by the hash of '
+          'exactly the chunks stored in it, which is what both validators recompute. (R02b) in FileDeduper::finalize each segment\'s verification hash is range_hash_from_chunks over chunk_hashes[idx .. idx + n] '
+          'with n = chunk_index_end - chunk_index_start and idx a cursor advanced once per segment by exactly n (read before the advance); the record is headed by file_node_hash(chunk_hashes, salt), counts '
+          'file_info.len() segments, flags verification, and flags the metadata ext that it stores. Not decided: that stored xorbs decode, that referenced xorbs exist and chunk indices are in range, that '
+          'segment byte sums match, the SHA-256 of the metadata ext, and everything value-level (C06 decides the hash functions\' agreement).'),
+    note='Partial claim: two clauses of the property, each a necessary condition; the statement as a whole (numerical equalities over stored artefacts) is not decided by static analysis here.')
+
+CLAIMS['C01'] = dict(
+    technique='static analysis: additive-update extraction with linear-form comparison, read-before-append ordering and must-pass-through (guard edge, hand-over) on the MIR of DataAggregator::merge_in',
+    text=('Decides ONE structural necessary condition of the round trip and nothing else: in DataAggregator::merge_in (small files sharing one xorb) every merged segment that still points into the pending xorb '
+          '(cas_hash == default) has chunk_index_start and chunk_index_end shifted by the same amount, exactly once, that amount being the receiver\'s chunk count read before the other aggregator\'s chunks are '
+          'appended; segments that already name a stored xorb are not shifted; chunks, byte total and pending file infos of the other aggregator are all taken over after the shift. A violation makes every '
+          'file merged second or later into an aggregate download wrong bytes. Not decided: the segment bookkeeping of process_chunks, dedup segment merging, reconstruction by segment list, ranged reads, '
+          'and byte equality as such — those are value-level; neighbouring structural clauses are decided under C02, C11, C14, C15 (hash patching in finalize), C16 and C17.'),
+    note='One clause of C01 only; the property as stated (byte-for-byte round trip for all files and configurations) is not decided by static analysis.')
